@@ -117,6 +117,80 @@ fn commit(db: &Db, rec: &Recorder, jtx: J, ops: Vec<(u8, Operation<Vec<u8>, Vec<
     }
 }
 
+/// Directed choice for columns whose keys collide on every index-visible bit (`collide`), made while an index
+/// growth is pending (two generations on disk, pipeline drained so that the files are the planned state): find a key
+/// A that is still indexed by the OLD generation only, at sub-index s of its page, and a key B of the same collision
+/// group whose entry in the CURRENT generation sits at the same sub-index s.  Returns an operation on A (remove /
+/// replace) when such a pair exists; otherwise an insertion of a B that will land on sub-index s of the current
+/// page (so that a later call finds the pair).  Slot numbers of different generations must never be mixed up.
+fn align_target(db: &Db, u: &Universe, c: usize, rng: &mut SmallRng) -> Option<(J, (u8, Operation<Vec<u8>, Vec<u8>>))> {
+    let d = db.verif_dump(c as u8).ok()?;
+    if d.indexes.len() < 2 {
+        return None
+    }
+    let spec = &u.cols[c];
+    let rc = if spec.is_rc() { 4 } else { 0 };
+    let rank_at = |tier: u8, off: u64| -> Option<usize> {
+        let t = d.tables.iter().find(|t| t.tier == tier && t.exists)?;
+        let s = t.slots.get(off as usize - 1)?;
+        let (kind, _) = crate::dump::classify(t, s);
+        let o = match kind {
+            "head" | "sized" => 2 + rc,
+            "mhead" => 10 + rc,
+            _ => return None,
+        };
+        let tail = s.get(o..o + 26)?;
+        (1..=u.nkeys).find(|k| &u.key(c, *k)[6..32] == tail)
+    };
+    let cur = &d.indexes[0];
+    let old = d.indexes.last()?;
+    let mut cur_pos: HashMap<usize, (u64, u64)> = HashMap::new();
+    let mut cur_occ: HashMap<u64, std::collections::HashSet<u64>> = HashMap::new();
+    for (chunk, sub, _pk, tier, off) in cur.entries.iter() {
+        cur_occ.entry(*chunk).or_default().insert(*sub);
+        if let Some(k) = rank_at(*tier, *off) {
+            cur_pos.insert(k, (*chunk, *sub));
+        }
+    }
+    let mut old_only: Vec<(usize, u64)> = Vec::new();
+    let mut in_old: std::collections::HashSet<usize> = Default::default();
+    for (_chunk, sub, _pk, tier, off) in old.entries.iter() {
+        if let Some(k) = rank_at(*tier, *off) {
+            in_old.insert(k);
+            if !cur_pos.contains_key(&k) {
+                old_only.push((k, *sub));
+            }
+        }
+    }
+    let prefix = |k: usize| u64::from_be_bytes(u.key(c, k)[0..8].try_into().unwrap());
+    let group = |a: usize| (1..=u.nkeys).filter(move |b| *b != a && prefix(*b) == prefix(a)).collect::<Vec<_>>();
+    let set = |k: usize, v: i64| (json!({"c": c + 1, "k": k, "t": "set", "v": v}), (c as u8, Operation::Set(u.key(c, k).clone(), u.val(c, k, v))));
+    let del = |k: usize| (json!({"c": c + 1, "k": k, "t": "del", "v": 0}), (c as u8, Operation::Dereference(u.key(c, k).clone())));
+    // a pair that is aligned now
+    for (a, s) in old_only.iter() {
+        for b in group(*a) {
+            if cur_pos.get(&b).map(|p| p.1) == Some(*s) {
+                return Some(if rng.gen::<u32>() % 2 == 0 { del(*a) } else { set(*a, 1 + (rng.gen::<usize>() % u.nvals) as i64) })
+            }
+        }
+    }
+    // make one: a key B that is stored nowhere, whose insertion takes the first empty sub-index of its page
+    for (a, s) in old_only.iter() {
+        let chunk = prefix(*a) >> (64 - cur.bits as u32);
+        let occ = cur_occ.get(&chunk);
+        let first_empty = (0..64u64).find(|i| occ.map_or(true, |o| !o.contains(i)))?;
+        if first_empty != *s {
+            continue
+        }
+        for b in group(*a) {
+            if !cur_pos.contains_key(&b) && !in_old.contains(&b) {
+                return Some(set(b, 1))
+            }
+        }
+    }
+    None
+}
+
 /// Sequential random history in stepping mode, with clean restarts and crashes taken at
 /// step boundaries or at a random hook event inside a pipeline step.
 /// `pdbh pdb-record --out F --cols JSON --nkeys N --nvals N --steps N --seed S [--crash PCT]`
@@ -174,7 +248,11 @@ pub fn cmd_record(args: &HashMap<String, String>) -> i32 {
         Tx(J, Vec<(u8, Operation<Vec<u8>, Vec<u8>>)>),
         Step(u32),
         CrashAt(&'static str),
+        /// drain (no reindex), then a directed operation on slot-aligned colliding keys (align_target)
+        Align(usize),
     }
+    let collide_cols: Vec<usize> = (0..u.cols.len()).filter(|c| u.cols[*c].collide && !u.cols[*c].is_btree()).collect();
+    let mut naligned = 0usize;
     let mut script: std::collections::VecDeque<Forced> = Default::default();
     if args.contains_key("growth_crash") && u.cols[0].collide && !u.cols[0].is_rc() {
         let set = |k: usize, v: i64| (json!({"c": 1, "k": k, "t": "set", "v": v}), (0u8, Operation::Set(u.key(0, k).clone(), u.val(0, k, v))));
@@ -205,7 +283,36 @@ pub fn cmd_record(args: &HashMap<String, String>) -> i32 {
     }
     while (i < steps || !script.is_empty()) && problems.is_empty() {
         i += 1;
-        let forced = script.pop_front();
+        let mut forced = script.pop_front();
+        if forced.is_none() && !collide_cols.is_empty() && iter.is_none() && rng.gen::<u32>() % 100 < 10 {
+            forced = Some(Forced::Align(collide_cols[rng.gen::<usize>() % collide_cols.len()]));
+        }
+        if let Some(Forced::Align(c)) = forced {
+            let d = db.as_ref().unwrap();
+            let res: Result<(), String> = (|| {
+                let mut guard = 0;
+                while d.verif_pipeline_sizes().0 > 0 && guard < 64 {
+                    catch(|| d.process_commits()).map_err(|p| format!("panic: {p}"))?.map_err(|e| format!("process_commits: {e}"))?;
+                    guard += 1;
+                }
+                catch(|| d.flush_logs()).map_err(|p| format!("panic: {p}"))?.map_err(|e| format!("flush_logs: {e}"))?;
+                for _ in 0..8 {
+                    while catch(|| enact_one_guarded(d)).map_err(|p| format!("panic: {p}"))?.map_err(|e| format!("enact: {e}"))? {}
+                }
+                catch(|| d.clean_logs()).map_err(|p| format!("panic: {p}"))?.map_err(|e| format!("clean_logs: {e}"))?;
+                Ok(())
+            })();
+            if let Err(e) = res {
+                problems.push(e);
+                continue
+            }
+            if let Some((j, o)) = align_target(d, &u, c, &mut rng) {
+                naligned += 1;
+                script.push_front(Forced::Step(40));
+                script.push_front(Forced::Tx(J::Array(vec![j]), vec![o]));
+            }
+            continue
+        }
         // cursor activity (btree columns): open / seek / step in both directions, interleaved
         // with everything else while the iterator stays open
         if forced.is_none() && cursor_pct > 0 && !btree_cols.is_empty() && rng.gen::<u32>() % 100 < cursor_pct {
@@ -269,6 +376,7 @@ pub fn cmd_record(args: &HashMap<String, String>) -> i32 {
                 forced_aim = Some(a);
                 95
             },
+            Some(Forced::Align(_)) => unreachable!(),
             None => rng.gen::<u32>() % 100,
         };
         if r >= 90 && iter.is_some() {
@@ -578,7 +686,7 @@ pub fn cmd_record(args: &HashMap<String, String>) -> i32 {
     Recorder::uninstall();
     let events = rec.take();
     write_trace(&args["out"], &events);
-    let summary = json!({"events": events.len(), "crashes": ncrash, "restarts": nrestart, "problems": problems, "universe": u.describe(), "init_rid": init_rid, "init_cid": init_cid, "nvals": u.nvals, "values_swept": SWEEP.load(Ordering::SeqCst),
+    let summary = json!({"events": events.len(), "aligned_collider_ops": naligned, "crashes": ncrash, "restarts": nrestart, "problems": problems, "universe": u.describe(), "init_rid": init_rid, "init_cid": init_cid, "nvals": u.nvals, "values_swept": SWEEP.load(Ordering::SeqCst),
                          "enact_inside_cleanup": nrace, "powerloss_images": npower, "powerloss_images_with_data_dropped": npower_changed});
     println!("{}", summary);
     let _ = std::fs::remove_dir_all(&root);
